@@ -18,7 +18,7 @@ RULE = ("hostile launches (vertical 90 / 89.99 deg, steep, downward to -90 deg, 
         "launch is steeper than 45 deg")
 MUST_OBSERVE = ["fires", "range_errors", "reason_velocity", "reason_drop", "reason_altitude", "normal_returns",
                 "mode_plain", "mode_extra", "twin_runs", "twin_rows_compared", "budget_checked", "vertical_launches",
-                "downward_launches", "slow_launches", "earlier_rows_checked", "zeroings_budgeted"]
+                "downward_launches", "slow_launches", "earlier_rows_checked", "zeroings_budgeted", "negative_velocity_limit"]
 ASSUMPTIONS = ["bounded restatement of 'terminates': fire() must finish within 1.5 x P/calc_step + 1000 integration steps, P being "
                "the air-relative path length of an independent coarse RK4 flight continued until one of this configuration's "
                "limits is violated; nothing is claimed beyond that budget",
@@ -74,6 +74,8 @@ def check_case(ctx, case):
         ctx.count("downward_launches")
     if spec["mv_fps"] < 60:
         ctx.count("slow_launches")
+    if lims[0] < 0:
+        ctx.count("negative_velocity_limit")
     # ---- budget from an independent flight
     tc = calc._calc  # pylint: disable=protected-access
     tc._init_trajectory(shot)  # pylint: disable=protected-access
@@ -184,7 +186,7 @@ def check_case(ctx, case):
             break
     # ---- twin with bounded-relaxed limits: leading rows identical
     if err is not None and case.get("twin", True):
-        relaxed = dict(cfg, cMinimumVelocity=0.0, cMaximumDrop=lims[1] - 2000.0, cMinimumAltitude=lims[2] - 2000.0)
+        relaxed = dict(cfg, cMinimumVelocity=min(0.0, lims[0]), cMaximumDrop=lims[1] - 2000.0, cMinimumAltitude=lims[2] - 2000.0)
         twin_counter = monitors.StepCounter(budget=step_budget * 3 + int(3 * 4000 / calc_step))
         with monitors.quiet(), twin_counter:
             try:
@@ -241,7 +243,8 @@ def gen_case(rng):
     alt0 = s["atmo"].get("alt_ft", 0.0)
     cfg = {}
     if rng.random() < 0.8:
-        cfg["cMinimumVelocity"] = rng.choice([0.0, 50.0, 300.0, 1000.0, 2000.0, 900, round(rng.uniform(100, 1500), 2)])
+        cfg["cMinimumVelocity"] = rng.choice([0.0, 50.0, 300.0, 1000.0, 2000.0, 900, round(rng.uniform(100, 1500), 2),
+                                              -50.0, -800])      # a negative limit is one no speed ever violates
     if rng.random() < 0.8:
         cfg["cMaximumDrop"] = rng.choice([-15000.0, -1000.0, -50.0, -1.0, 0.0, -3000.0, -0.9, -10.75, round(-rng.uniform(0.1, 300), 3),
                                           -7, -250])      # whole and fractional feet, floats and ints
